@@ -37,9 +37,16 @@ func main() {
 			os.Exit(3)
 		}
 		for _, bc := range cs {
-			if err := runChild(bc.Case, resultFile(os.Args[3], bc.Idx)); err != nil {
+			rf := resultFile(os.Args[3], bc.Idx)
+			if err := runChild(bc.Case, rf); err != nil {
 				fmt.Fprintln(os.Stderr, "child:", err)
 				os.Exit(3)
+			}
+			// after a case in which a wait expired this process may hold stuck goroutines: the rest of the
+			// batch is handed back to the parent
+			var res childResult
+			if drv.ReadJSON(rf, &res) == nil && anyHung(&res) {
+				break
 			}
 		}
 		os.Exit(0)
@@ -86,11 +93,11 @@ var batchSeq struct {
 	n int
 }
 
-// runBatch runs the cases (indices into cases) in child processes: one child for all of them as long
-// as it lives; when a child dies, the case it was running gets the death as its observation and the
-// remaining cases go to a fresh child.
-func runBatch(dir string, cases []pCase, idxs []int, obs []observation) {
-	for len(idxs) > 0 {
+// runBatch runs the cases (indices into cases) in ONE child process, in order.  When the child dies, the case it
+// was running gets the death as its observation; that case and the ones before it are returned as done, the
+// ones it did not reach (also when it stopped by itself after a case with an expired wait) as rest.
+func runBatch(dir string, cases []pCase, idxs []int, obs []observation) (done, rest []int) {
+	{
 		batchSeq.Lock()
 		batchSeq.n++
 		cf := filepath.Join(dir, fmt.Sprintf("batch_%04d.json", batchSeq.n))
@@ -103,7 +110,7 @@ func runBatch(dir string, cases []pCase, idxs []int, obs []observation) {
 		}
 		b, _ := json.Marshal(bcs)
 		_ = os.WriteFile(cf, b, 0o644)
-		ctx, cancel := context.WithTimeout(context.Background(), time.Duration(60+90*len(idxs))*time.Second)
+		ctx, cancel := context.WithTimeout(context.Background(), time.Duration(60+45*len(idxs))*time.Second)
 		cmd := exec.CommandContext(ctx, os.Args[0], "child", cf, dir)
 		var stderr bytes.Buffer
 		cmd.Stderr = &stderr
@@ -142,32 +149,34 @@ func runBatch(dir string, cases []pCase, idxs []int, obs []observation) {
 			_ = os.Remove(resultFile(dir, i))
 			_ = os.Remove(resultFile(dir, i) + ".site")
 			if o.Res == nil || o.Res.Phase != "done" {
+				if exit == 0 && !timedOut {
+					// the child handed the rest of its batch back (it stops after a case in which a wait expired)
+					died = true
+					next = append(next, i)
+					continue
+				}
 				// the child ended while this case was running (or before it started, if it could not start at all)
 				o.Exit, o.TimedOut, o.Stderr = exit, timedOut, es
-				if exit == 0 && !timedOut {
-					o.Exit = -2 // cannot happen: the child exits 0 only after its last case
-				}
 				died = true
 			}
 			obs[i] = o
+			done = append(done, i)
 		}
-		idxs = next
+		return done, next
 	}
 }
 
-func hung(o observation) bool {
-	if o.TimedOut {
-		return true
-	}
-	if o.Res == nil {
-		return false
-	}
-	for _, r := range []*reqResult{o.Res.Solo2, o.Res.Solo3, o.Res.R1, o.Res.R2, o.Res.R3} {
+func anyHung(res *childResult) bool {
+	for _, r := range []*reqResult{res.Solo2, res.Solo3, res.R1, res.R2, res.R3} {
 		if r != nil && r.Hung {
 			return true
 		}
 	}
 	return false
+}
+
+func hung(o observation) bool {
+	return o.TimedOut || (o.Res != nil && anyHung(o.Res))
 }
 
 func sameResult(a, b *reqResult) bool {
@@ -218,6 +227,89 @@ func r1Obs(o observation) string {
 	return "ROther"
 }
 
+// summary is the projection of an observation that the Coq side gets (and that goMonitor judges)
+type summary struct {
+	survived       bool
+	crashMsg       uint64
+	r1             string
+	status         int
+	cbReq, cbResp  []uint64
+	r2same, r3same bool
+}
+
+func summarize(o observation) summary {
+	sm := summary{survived: o.Exit == 0 && !o.TimedOut && o.Res != nil && o.Res.Phase == "done", r1: r1Obs(o)}
+	if o.Res != nil {
+		sm.cbReq, sm.cbResp = o.Res.CbReq, o.Res.CbResp
+		sm.status = o.Res.RespStatus["r1"]
+		sm.r2same = sameResult(o.Res.Solo2, o.Res.R2) && len(o.Res.R2.Errs) == 0
+		sm.r3same = sameResult(o.Res.Solo3, o.Res.R3) && len(o.Res.R3.Errs) == 0
+	}
+	if !sm.survived {
+		// a Go crash prints `panic: "verif-panic-N"` (possibly after a [recovered] prefix) on stderr
+		if i := strings.Index(o.Stderr, "verif-panic-"); i >= 0 {
+			_, _ = fmt.Sscanf(o.Stderr[i:], "verif-panic-%d", &sm.crashMsg)
+		}
+	}
+	return sm
+}
+
+func sameU64(a, b []uint64) bool {
+	if len(a) != len(b) {
+		return false
+	}
+	for i := range a {
+		if a[i] != b[i] {
+			return false
+		}
+	}
+	return true
+}
+
+// goMonitor is pcase_mon (Panics.v) on the Go side; it only decides when the driver stops scheduling
+// further cases — the verdict itself is Coq's
+func goMonitor(c pCase, o observation) bool {
+	sm := summarize(o)
+	if !sm.survived || !sm.r2same || !sm.r3same {
+		return false
+	}
+	if c.Kind == "none" {
+		return sm.r1 == "RCompleted" && len(sm.cbReq) == 0 && len(sm.cbResp) == 0
+	}
+	v := uint64(7000 + c.K)
+	var want []uint64
+	if c.Cb {
+		want = []uint64{v}
+	}
+	if c.Side == "requestor" {
+		return sm.r1 == fmt.Sprintf("(RPanicErr %d)", v) && sameU64(sm.cbReq, want) && len(sm.cbResp) == 0
+	}
+	postSend := c.Kind == "codec" || c.Kind == "reifier" || c.Kind == "selector" || c.Kind == "visitor"
+	seen := sm.r1 == "RRemoteFailed" || (sm.r1 == "RCompleted" && c.K+1 == c.N1 && postSend)
+	return seen && sm.status == 32 && sameU64(sm.cbResp, want) && len(sm.cbReq) == 0
+}
+
+// hangs describes the waits that expired in a case (after its rerun): concrete Go-side violations
+func hangs(o observation) []string {
+	var out []string
+	if o.TimedOut {
+		out = append(out, "the child process did not finish")
+	}
+	if o.Res == nil {
+		return out
+	}
+	if r := o.Res.R1; r != nil && r.Hung {
+		out = append(out, fmt.Sprintf("r1's progress and error channels were not closed within %v of the request (errors seen: %v)", reqDeadline, r.Errs))
+	}
+	if r := o.Res.R2; r != nil && r.Hung {
+		out = append(out, fmt.Sprintf("r2, in progress while r1 panicked, did not finish within %v after r1 had ended", reqDeadline))
+	}
+	if r := o.Res.R3; r != nil && r.Hung {
+		out = append(out, fmt.Sprintf("r3, issued after r1 had ended, did not complete within %v", reqDeadline))
+	}
+	return out
+}
+
 func term(c pCase, o observation) string {
 	side := "Requestor"
 	if c.Side == "responder" {
@@ -227,16 +319,9 @@ func term(c pCase, o observation) string {
 	if c.Kind != "none" {
 		kind = "(Some " + coqKind[c.Kind] + ")"
 	}
-	survived := o.Exit == 0 && !o.TimedOut && o.Res != nil && o.Res.Phase == "done"
-	var cbReq, cbResp []uint64
-	status := 0
-	r2same, r3same := false, false
+	sm := summarize(o)
 	var chains []string
 	if o.Res != nil {
-		cbReq, cbResp = o.Res.CbReq, o.Res.CbResp
-		status = o.Res.RespStatus["r1"]
-		r2same = sameResult(o.Res.Solo2, o.Res.R2) && len(o.Res.R2.Errs) == 0
-		r3same = sameResult(o.Res.Solo3, o.Res.R3) && len(o.Res.R3.Errs) == 0
 		for _, k := range cw.SortedKeys(o.Res.Chains) {
 			for _, ch := range o.Res.Chains[k] {
 				chains = append(chains, fmt.Sprintf("(%s, %s)", coqKind[k], coqStrList(strings.Split(ch, " > "))))
@@ -247,16 +332,9 @@ func term(c pCase, o observation) string {
 	if o.Site != nil {
 		site = coqStrList(o.Site.Chain)
 	}
-	crashMsg := uint64(0)
-	if !survived {
-		// a Go crash prints `panic: "verif-panic-N"` (possibly after a [recovered] prefix) on stderr
-		if i := strings.Index(o.Stderr, "verif-panic-"); i >= 0 {
-			_, _ = fmt.Sscanf(o.Stderr[i:], "verif-panic-%d", &crashMsg)
-		}
-	}
 	return fmt.Sprintf("mk_pcase %s %s %d %d %s %s %d %s %d %s %s %s %s %s %s",
 		side, kind, c.K, c.N1, cw.Bool(c.Cb),
-		cw.Bool(survived), crashMsg, r1Obs(o), status, cw.NList(cbReq), cw.NList(cbResp), cw.Bool(r2same), cw.Bool(r3same),
+		cw.Bool(sm.survived), sm.crashMsg, sm.r1, sm.status, cw.NList(sm.cbReq), cw.NList(sm.cbResp), cw.Bool(sm.r2same), cw.Bool(sm.r3same),
 		site, cw.List(chains))
 }
 
@@ -364,44 +442,71 @@ func run(c *drv.Ctx) error {
 		return err
 	}
 	obs := make([]observation, len(cases))
+	ran := make([]bool, len(cases))
 	const workers = 8
-	inParallel := func(all []int) {
-		var wg sync.WaitGroup
-		for wk := 0; wk < workers; wk++ {
-			var idxs []int
-			for j := wk; j < len(all); j += workers {
-				idxs = append(idxs, all[j])
-			}
-			if len(idxs) == 0 {
-				continue
-			}
-			wg.Add(1)
-			go func(idxs []int) {
-				defer wg.Done()
-				runBatch(tmp, cases, idxs, obs)
-			}(idxs)
+	const stopAfter = 3 // cases failing the property (after their rerun) after which no further case is started
+	chunk := (len(cases) + workers - 1) / workers
+	if chunk > 10 {
+		chunk = 10
+	}
+	if chunk < 1 {
+		chunk = 1
+	}
+	var qmu sync.Mutex
+	queue := make([]int, len(cases))
+	for i := range queue {
+		queue[i] = i
+	}
+	bad := 0
+	take := func() []int {
+		qmu.Lock()
+		defer qmu.Unlock()
+		if bad >= stopAfter || len(queue) == 0 {
+			return nil
 		}
-		wg.Wait()
-	}
-	all := make([]int, len(cases))
-	for i := range all {
-		all[i] = i
-	}
-	inParallel(all)
-	// a wait that expired (or a mocknet that could not be set up) may be a loaded machine: those cases once more
-	var again []int
-	for i := range cases {
-		if hung(obs[i]) || obs[i].Exit == 3 {
-			again = append(again, i)
+		n := chunk
+		if n > len(queue) {
+			n = len(queue)
 		}
+		idxs := append([]int{}, queue[:n]...)
+		queue = queue[n:]
+		return idxs
 	}
-	inParallel(again)
-	for _, i := range again {
-		obs[i].Reruns = 1
+	var wg sync.WaitGroup
+	for wk := 0; wk < workers; wk++ {
+		wg.Add(1)
+		go func() {
+			defer wg.Done()
+			for idxs := take(); idxs != nil; idxs = take() {
+				done, rest := runBatch(tmp, cases, idxs, obs)
+				qmu.Lock()
+				queue = append(append([]int{}, rest...), queue...) // cases the child did not reach go back to the front
+				qmu.Unlock()
+				for _, i := range done {
+					if hung(obs[i]) || obs[i].Exit == 3 {
+						// a wait that expired (or a mocknet that could not be set up) may be a loaded machine: once more, alone
+						runBatch(tmp, cases, []int{i}, obs)
+						obs[i].Reruns = 1
+					}
+					qmu.Lock()
+					ran[i] = true
+					if !goMonitor(cases[i], obs[i]) {
+						bad++
+					}
+					qmu.Unlock()
+				}
+			}
+		}()
 	}
+	wg.Wait()
 	_ = os.RemoveAll(tmp)
 	reruns, crashes, gate := 0, 0, 0
+	notRun := 0
 	for i, pc := range cases {
+		if !ran[i] {
+			notRun++
+			continue
+		}
 		o := obs[i]
 		fired := o.Site != nil
 		tags := append([]string{}, pc.Tags...)
@@ -416,8 +521,12 @@ func run(c *drv.Ctx) error {
 		}
 		reruns += o.Reruns
 		pc.Tags = pc.Tags[:len(pc.Tags):len(pc.Tags)]
-		w.Add(term(pc, o), caseRec{pc, o}, fired, tags...)
+		idx := w.Add(term(pc, o), caseRec{pc, o}, fired, tags...)
+		for _, h := range hangs(o) {
+			w.Violation(idx, h+fmt.Sprintf(" [%s %s at block %d, also after a rerun]", pc.Side, pc.Kind, pc.K), "hang:"+pc.Side+"/"+pc.Kind)
+		}
 	}
-	w.Stats.Extra = map[string]any{"children_rerun_after_expired_wait": reruns, "children_that_crashed": crashes, "r2_waiting_at_gate_while_r1_ran": gate}
+	w.Stats.Extra = map[string]any{"children_rerun_after_expired_wait": reruns, "children_that_crashed": crashes, "r2_waiting_at_gate_while_r1_ran": gate,
+		"cases_not_started_after_3_failing_cases": notRun}
 	return w.Flush()
 }
